@@ -235,8 +235,10 @@ class VPLSBase(NLRI):
         if len(data) != length + 2:
             raise Notify(3, 10, 'l2vpn vpls message length is not consistent with encoded bgp')
 
-        # only what the accessors read is kept, so what is packed back is what was understood
-        packed = bytes(data[0:2]) + bytes(data[2 : 2 + VPLS_PAYLOAD_SIZE])
+        # only what the accessors read is kept, so what is packed back is what was understood:
+        # the length that is kept has to be the length of what is kept, or our own encoding of
+        # this object (length 18, then 17 bytes) is refused by this very decoder
+        packed = pack('!H', VPLS_PAYLOAD_SIZE) + bytes(data[2 : 2 + VPLS_PAYLOAD_SIZE])
         nlri = cls(packed)
         return nlri, data[2 + length :]
 
